@@ -63,6 +63,13 @@ func drawRules(t *rapid.T, c *hx.Case, maxRules int) []*mrule {
 	nr := rapid.IntRange(1, maxRules).Draw(t, "nrules")
 	var ms []*mrule
 	for i := 0; i < nr; i++ {
+		ms = append(ms, drawRule(t, c, i))
+	}
+	return ms
+}
+
+func drawRule(t *rapid.T, c *hx.Case, i int) *mrule {
+	{
 		r := &flow.Rule{ID: fmt.Sprint(i), Resource: "a", TokenCalculateStrategy: flow.Direct, ControlBehavior: flow.Reject,
 			Threshold:        rapid.SampledFrom(thresholds).Draw(t, "T"),
 			StatIntervalInMs: uint32(rapid.SampledFrom(intervals).Draw(t, "I"))}
@@ -77,10 +84,9 @@ func drawRules(t *rapid.T, c *hx.Case, maxRules int) []*mrule {
 			r.RefResource = ""
 			c.Excluded("P4")
 		}
-		ms = append(ms, &mrule{r: r, bl: bl, iv: iv, standalone: sa})
 		c.Op("rule %d T=%v I=%d relation=%v standalone=%v", i, r.Threshold, r.StatIntervalInMs, r.RelationStrategy, sa)
+		return &mrule{r: r, bl: bl, iv: iv, standalone: sa}
 	}
-	return ms
 }
 
 func load(t *rapid.T, ms []*mrule) {
@@ -134,6 +140,7 @@ func TestSequential(t *testing.T) {
 		hx.Reset(hx.Epoch + uint64(rapid.IntRange(0, 20000).Draw(t, "t0")))
 		ms := drawRules(t, c, 3)
 		load(t, ms)
+		nextID, reloaded := 10, false
 		passes := map[string][]adm{}
 		var live []*base.SentinelEntry
 		defer func() {
@@ -172,6 +179,37 @@ func TestSequential(t *testing.T) {
 			}
 			hx.C.AddMs(dt)
 			now = hx.C.Ms()
+			if rapid.IntRange(0, 9).Draw(t, "reload") == 0 {
+				// reload with every present rule unchanged and one rule added (anywhere) or one removed: unchanged rules
+				// keep their windows, the added rule starts an empty stand-alone window of its own (or reads the shared one)
+				if len(ms) > 1 && rapid.Bool().Draw(t, "remove") {
+					k := rapid.IntRange(0, len(ms)-1).Draw(t, "which")
+					c.Op("reload without rule %s", ms[k].r.ID)
+					ms = append(ms[:k:k], ms[k+1:]...)
+				} else if len(ms) < 5 {
+					nextID++
+					m := drawRule(t, c, nextID)
+					k := rapid.IntRange(0, len(ms)).Draw(t, "at")
+					// rules are matched to their old controllers modulo ID, so a twin of a present rule (same threshold, interval,
+					// relation) is indistinguishable from it for the library: the added rule is made to differ in its threshold
+					for ti := 0; ti < len(thresholds); ti++ {
+						twin := false
+						for _, o := range ms {
+							if o.r.Threshold == m.r.Threshold && o.r.StatIntervalInMs == m.r.StatIntervalInMs && o.r.RelationStrategy == m.r.RelationStrategy {
+								twin = true
+							}
+						}
+						if !twin {
+							break
+						}
+						m.r.Threshold = thresholds[ti]
+					}
+					ms = append(ms[:k:k], append([]*mrule{m}, ms[k:]...)...)
+					c.Op("reload with rule %s added at position %d", m.r.ID, k)
+				}
+				load(t, ms)
+				reloaded = true
+			}
 			res := rapid.SampledFrom([]string{"a", "a", "b"}).Draw(t, "res")
 			b := uint32(rapid.SampledFrom([]int{1, 1, 1, 2, 3, 5, 30}).Draw(t, "batch"))
 			e, blk := sentinel.Entry(res, sentinel.WithBatchCount(b))
@@ -187,8 +225,9 @@ func TestSequential(t *testing.T) {
 				if blk.BlockType() != base.BlockTypeFlow {
 					t.Fatalf("block type %v, want flow", blk.BlockType())
 				}
-				if r, ok := blk.TriggeredRule().(*flow.Rule); !ok || r.ID != fmt.Sprint(expBlock) {
-					t.Fatalf("t=%d blocked by rule %v, the first exhausted rule is %d", now, blk.TriggeredRule(), expBlock)
+				// (rule identity is modulo ID: a controller kept for an unchanged rule still reports the rule object it was built from)
+				if r, ok := blk.TriggeredRule().(*flow.Rule); !ok || r.Threshold != ms[expBlock].r.Threshold || r.StatIntervalInMs != ms[expBlock].r.StatIntervalInMs || r.RelationStrategy != ms[expBlock].r.RelationStrategy {
+					t.Fatalf("t=%d blocked by rule %v, the first exhausted rule is %s", now, blk.TriggeredRule(), ms[expBlock].r.ID)
 				}
 				if v, ok := blk.TriggeredValue().(float64); !ok || v != expVal {
 					t.Fatalf("t=%d triggered value %v, window content per reference %v", now, blk.TriggeredValue(), expVal)
@@ -212,6 +251,7 @@ func TestSequential(t *testing.T) {
 		}
 		c.ClassIf(sawBlock && sawPassAfterBoundary, "block-then-pass-across-boundary")
 		c.ClassIf(special, "standalone/associated/multi-rule")
+		c.ClassIf(reloaded, "reload-adds-or-removes-a-rule-mid-history")
 		if (sawBlock && sawPassAfterBoundary) || special {
 			c.NonTrivial()
 		}
